@@ -22,6 +22,9 @@ CLAIMED = {
  'C05': ('3.5', 'symbolic execution of the real boost_error_level/encode with an unbounded symbolic payload length, z3; sentinel parametricity for the public wrappers',
          'For every version, requested level and mode list, z3 shows for EVERY fitting payload length that boost_error_level returns the highest ISO level that still holds the content (never below the request, never H in Micro), that encode() hands the requested/default level to _encode, and that the wrappers pass boost_error through.',
          'trusted: iso_tables.py capacities, z3; symbol-level confirmation at listed payload lengths only'),
+ 'C08': ('3.8', 'symbolic execution of the real encode_sequence with an unbounded symbolic content LENGTH (z3 LIA; symbol count concretised by forking) + real make_sequence on content with free bytes read back by the ISO reader, z3',
+         'For every listed mode / level / version-or-count, z3 shows for EVERY content length that encode_sequence yields 1..16 QR symbols, exactly k for symbol_count=k, only version v for version=v, chunk lengths summing to the content in order, and that every chunk with its 20-bit header fits its symbol (outside the recorded deviation, which is pinned to its exact formula). On real symbols with free content bytes: header position/total, parity == XOR of all content bytes in every symbol, reassembled payload == content.',
+         'trusted: iso_tables.py, reference reader, z3; segments in the length-level part carry the ISO bit-length formula (justified by C04(3)); ceil(a/b) on doubles treated as exact'),
  'C13': ('3.13', 'symbolic execution of the real write_terminator/write_padding_bits/write_pad_codewords with a symbolic stream LENGTH and position (z3 LIA + uninterpreted content), forking on the pad-codeword count',
          'For every (version, level) and every stream length in the stated windows (thorough: every length 0..capacity), z3 shows that every bit position of the padded stream equals ISO 7.4.9/7.4.10 (terminator, padding to the boundary only if needed, 11101100/00010001, final 0000 for M1/M3), remainder bits zero; the recorded aligned-stream deviation is checked against its exact deviant oracle.',
          'trusted: iso_tables.py capacities/terminator lengths, z3; content modelled as an uninterpreted bit function'),
